@@ -290,6 +290,36 @@ func (c14) Run(plan interface{}, schedSeed uint64, replay []simrt.Choice, lenien
 		nReal--
 	}
 	if v.Class == "" {
+		nBefore := len(pkgsOnly(before))
+		if gotSynthetic && len(after) == 0 {
+			nBefore--
+		}
+		if firstErr != nil && nBefore < lower && nReal >= lower {
+			// Diagnosis from the event log of the same execution: did the library queue the error before the
+			// package (then no consumer can see the prefix first), or the package first and the consumer, parked
+			// in its select, was handed the error by the select's random choice (documented by NextPackage)?
+			order := "package was queued before the error"
+			cfg2 := cfg
+			cfg2.Replay, cfg2.Lenient, cfg2.KeepLog = out.Tape, false, true
+			again := runResp(cfg2, respDelivery{Packets: pk, TermAt: p.K, TermKind: term, TermWithData: withData, Async: p.Async},
+				respClient{QueueSize: 100, ReadTimeoutS: p.ReadTimeoutS, DrainFor: drain, ReadSizes: c14ReadSizes(p.ReadSize, len(wire))})
+			pkgSends, errSend := 0, -1
+			for _, e := range again.Out.Log {
+				if e.Op != "send" {
+					continue
+				}
+				fn := Sites[e.Site].Func
+				if strings.Contains(fn, "tryParsePackage") || strings.Contains(fn, "WritePacket") {
+					pkgSends++
+				} else if strings.Contains(fn, "(*Conn).ReadFrom") && errSend < 0 {
+					errSend = pkgSends
+				}
+			}
+			if errSend >= 0 && errSend < lower {
+				order = "error was queued before the package"
+			}
+			v.Violate("error-before-packages", "error surfaced before packages of completely received packets ("+order+")", "%s: %d packages lie in completely received packets but only %d were delivered before the first error (%d more after it); %s", where, lower, nBefore, len(after), order)
+		}
 		if nReal < lower {
 			v.Violate("lost-packages", "lost: package in completely received packet not delivered", "%s: %d packages lie in completely received packets but only %d were delivered", where, lower, nReal)
 		}
